@@ -24,3 +24,26 @@ fn k_collect_hashbrown_map() {
         core::mem::forget(m); core::mem::forget(cx);
     }
 }
+#[kani::proof]
+#[kani::unwind(6)]
+fn k_collect_hashbrown_set_keys() {
+    unsafe {
+        let cx = Context::new(); let mc = cx.mutation_context();
+        let g = [Gc::new(mc, 0u8), Gc::new(mc, 1u8)];
+        // a key type that holds a pointer (hashed / compared by its tag)
+        struct KeyP<'gc>(u8, Gc<'gc, u8>);
+        impl<'gc> PartialEq for KeyP<'gc> { fn eq(&self, o: &Self) -> bool { self.0 == o.0 } }
+        impl<'gc> Eq for KeyP<'gc> {}
+        impl<'gc> core::hash::Hash for KeyP<'gc> { fn hash<H: Hasher>(&self, h: &mut H) { h.write(&[self.0]) } }
+        unsafe impl<'gc> Collect<'gc> for KeyP<'gc> { fn trace<T: crate::collect::Trace<'gc>>(&self, cc: &mut T) { cc.trace(&self.1) } }
+        let mut m: hashbrown::HashMap<KeyP, Gc<'_, u8>, BuildHasherDefault<H0>> = hashbrown::HashMap::default();
+        m.insert(KeyP(3, g[0]), g[1]);
+        let mut r = Rec::new(); m.trace(&mut r);
+        assert!(r.ns == 2 && ((r.s[0] == a(g[0]) && r.s[1] == a(g[1])) || (r.s[0] == a(g[1]) && r.s[1] == a(g[0]))), "[trace] hashbrown::HashMap: key AND value");
+        let mut s: hashbrown::HashSet<KeyP, BuildHasherDefault<H0>> = hashbrown::HashSet::default();
+        s.insert(KeyP(4, g[0]));
+        let mut r = Rec::new(); s.trace(&mut r);
+        assert!(r.ns == 1 && r.s[0] == a(g[0]), "[trace] hashbrown::HashSet elements");
+        core::mem::forget(m); core::mem::forget(s); core::mem::forget(cx);
+    }
+}
